@@ -1563,11 +1563,12 @@ func (w *jobctlWorld) finalMonitors() {
 	for _, r := range j.Status.Tasks {
 		listed[r.Name] = true
 	}
+	// (at quiescence every watch event has been delivered, so the pod cache is complete: an
+	// unrecorded task is found either by the create that returns AlreadyExists, or — once creation
+	// is disabled or no longer needed — by the adoption scan; a live one must not stay unlisted)
 	for _, p := range w.ownedPods() {
-		if !listed[p.Name] && !jobutil.IsStarted(j) == false && j.DeletionTimestamp == nil {
-			if _, adm := jobutil.GetAdmissionErrorMessage(j); !adm && j.Spec.KillTimestamp == nil && j.Status.Condition.Finished == nil {
-				w.c.Violate("C09", "never-forgotten", "pod %s owned by the Job is not listed in status.tasks at quiescence", p.Name)
-			}
+		if !listed[p.Name] && jobutil.IsStarted(j) && j.DeletionTimestamp == nil && podAlive(p) && p.DeletionTimestamp == nil {
+			w.c.Violate("C09", "never-forgotten", "live pod %s owned by the Job is not listed in status.tasks at quiescence (Job phase %s)", p.Name, j.Status.Phase)
 		}
 	}
 	// C09: foreign objects are never adopted
